@@ -21,7 +21,9 @@ ATTR = {"Display": "display", "Debug": "debug", "Octal": "octal", "LowerHex": "l
 MOD = {"none": "", "ws": "", "colon": "", "colon_ws": "", "width": "5", "fill": "*<", "left": "<", "center": "^", "right": ">", "sign": "+",
        "minus": "-", "alt": "#", "zero": "0", "prec": ".2"}
 
-PRELUDE = "use core::fmt;\n#[derive(Clone, Copy)] pub struct P(pub u8);\n" + "".join(f'''
+PRELUDE = ("use core::fmt;\n#[derive(Clone, Copy)] pub struct P(pub u8);\n"
+           # an inherent `fmt` wins over every trait's under method-call syntax: an expansion writing `field.fmt(f)` prints POISON
+           "impl P { pub fn fmt(&self, f: &mut fmt::Formatter<'_>) -> fmt::Result { f.write_str(\"<POISON:inherent fmt>\") } }\n") + "".join(f'''
 impl fmt::{t} for P {{ fn fmt(&self, f: &mut fmt::Formatter<'_>) -> fmt::Result {{ echo(self.0, "{t}", f) }} }}'''
     for t in ["Display", "Debug", "Octal", "LowerHex", "UpperHex", "Pointer", "Binary", "LowerExp", "UpperExp"]) + r'''
 fn echo(id: u8, tr: &str, f: &mut fmt::Formatter<'_>) -> fmt::Result {
@@ -86,7 +88,7 @@ def args_text(c):
     raise ValueError(a)
 
 
-SHARED = {"none": "", "bare_variant": "{_variant}", "wrap": "[{_variant}]"}
+SHARED = {"none": "", "bare_variant": "{_variant}", "wrap": "[{_variant}]", "default": "dflt"}
 
 
 def key_of(c):
